@@ -110,7 +110,7 @@ func runUnknown(f lib.Flags, res *lib.Result, drv *lib.Driver, ms *monitors) {
 			if i == j {
 				label = "same"
 			}
-			c := ecase{Spec: plainEqual, X: withUnknown(x, nested), Y: withUnknown(y, nested), Label: label}
+			c := ecase{Spec: plainEqual, X: withUnknown(x, nested), Y: withUnknown(y, nested), Label: label, DynX: k%5 == 1, DynY: k%3 == 1}
 			cases = append(cases, c)
 			lines = append(lines, c.lines()[0])
 			if len(cases) == batch && !flush() {
